@@ -355,8 +355,10 @@ fn obs_ops_n(bytes: &[u8], ops: &str) -> (String, usize) {
                             match r.to_any_record::<AllRecordData<_, _>>() {
                                 Err(_) => v.push("e".to_string()),
                                 Ok(rec) => v.push(match rec.data() {
-                                    AllRecordData::Nsec(n) => format!("B{}", n.types().iter().map(|x| x.to_int().to_string()).collect::<Vec<_>>().join(".")),
-                                    AllRecordData::Nsec3(n) => format!("B{}", n.types().iter().map(|x| x.to_int().to_string()).collect::<Vec<_>>().join(".")),
+                                    AllRecordData::Nsec(n) => format!("B{}/{}", n.types().iter().map(|x| x.to_int().to_string()).collect::<Vec<_>>().join("."),
+                                        [1u16, 2, 46, 47, 256, 65535].iter().map(|t| if n.types().contains(Rtype::from_int(*t)) { "1" } else { "0" }).collect::<String>()),
+                                    AllRecordData::Nsec3(n) => format!("B{}/{}", n.types().iter().map(|x| x.to_int().to_string()).collect::<Vec<_>>().join("."),
+                                        [1u16, 2, 46, 47, 256, 65535].iter().map(|t| if n.types().contains(Rtype::from_int(*t)) { "1" } else { "0" }).collect::<String>()),
                                     AllRecordData::Svcb(x) => format!("S{}", svc_obs(x.params())),
                                     AllRecordData::Https(x) => format!("S{}", svc_obs(x.params())),
                                     AllRecordData::Txt(x) => format!("T{}", x.iter().map(|c| hex(c)).collect::<Vec<_>>().join(".")),
